@@ -22,6 +22,21 @@ var opts = gen.RichOpts{Malformed: true, Oversized: true, Copy: true, Auth: true
 func genCase(t *rapid.T) Case {
 	c := Case{History: gen.Rich(t, opts)}
 	c.Stepwise = rapid.Bool().Draw(t, "stepwise")
+	if rapid.IntRange(0, 3).Draw(t, "terminate-last") == 0 {
+		// Terminate right behind the rest (in burst mode: in the same write): everything the server
+		// produced before it closes the connection is still whole messages
+		if rapid.Bool().Draw(t, "bulk-result-first") {
+			// ... including a result of 5-40 KB produced just before
+			st := script.Stmt{Cols: []script.Col{{Name: "n", T: "int4"}, {Name: "s", T: "text"}}}
+			for i, n := 0, rapid.SampledFrom([]int{100, 300, 800}).Draw(t, "bulk-rows"); i < n; i++ {
+				st.Ops = append(st.Ops, script.Op{K: "row", Vals: []script.Val{{T: "int4", I: int64(i)}, {T: "text", S: "a row of the bulk result, number " + strconv.Itoa(i)}}})
+			}
+			st.Ops = append(st.Ops, script.Op{K: "complete", Tag: "SELECT"})
+			c.Cfg.Table.Q["bulk result"] = script.Outcome{Stmts: []script.Stmt{st}}
+			c.Msgs = append(c.Msgs, script.CMsg{K: "S"}, script.CMsg{K: "Q", Query: "bulk result"})
+		}
+		c.Msgs = append(c.Msgs, script.CMsg{K: "X"})
+	}
 	if rapid.IntRange(0, 5).Draw(t, "other-version?") == 0 {
 		// every protocol version a client may announce: earlier majors, later minors and majors, and
 		// neighbours of the request codes (the codes themselves are requests, not versions)
